@@ -430,3 +430,57 @@ Proof.
   split; [|vm_compute; reflexivity].
   intros H. repeat (destruct H as [H|H]; [discriminate|]). exact H.
 Qed.
+
+(* ---------------------------------------------------------------- committed one-level map (H-sep) *)
+Lemma sub_over_find (P : bt -> Prop) t : over P t ->
+  forall x, atom x -> sub x t -> exists l, P l /\ sub x l.
+Proof.
+  intros Ho. induction Ho as [l Hl | a b Ha IHa Hb IHb]; intros x Hx Hs.
+  - exists l. split; assumption.
+  - inversion Hs; subst.
+    + unfold atom in Hx. rewrite is_mrg_Mrg in Hx. discriminate.
+    + apply IHa; assumption.
+    + apply IHb; assumption.
+Qed.
+
+Lemma sub_BLit x b : sub x (BLit b) -> x = BLit b.
+Proof. intros H. inversion H; subst; reflexivity. Qed.
+
+(* the committed structure of a block-range map: per range a key (raw bytes) and a tree of atoms *)
+Definition master_leaves (ranges : list (list N * list bt)) : option (list bt) :=
+  fold_right (fun r acc =>
+                match mmr_root (snd r), acc with
+                | Some rt, Some a => Some (Mrg (BLit (fst r)) rt :: a)
+                | _, _ => None
+                end) (Some []) ranges.
+
+Lemma master_leaves_In ranges ms m : master_leaves ranges = Some ms -> In m ms ->
+  exists k xs rt, In (k, xs) ranges /\ mmr_root xs = Some rt /\ m = Mrg (BLit k) rt.
+Proof.
+  revert ms. induction ranges as [|[k xs] r IH]; intros ms H Hin; cbn [master_leaves fold_right] in H.
+  - injection H as <-. contradiction.
+  - fold (master_leaves r) in H. cbn [fst snd] in H.
+    destruct (mmr_root xs) as [rt|] eqn:Er; [|discriminate].
+    destruct (master_leaves r) as [a|] eqn:Ea; [|discriminate]. injection H as <-.
+    destruct Hin as [<-|Hin].
+    + exists k, xs, rt. split; [left; reflexivity|]. split; [exact Er | reflexivity].
+    + destruct (IH a eq_refl Hin) as [k' [xs' [rt' [H1 [H2 H3]]]]].
+      exists k', xs', rt'. split; [right; exact H1|]. split; assumption.
+Qed.
+
+Theorem map_sound_committed ranges ms p x :
+  (forall k xs, In (k, xs) ranges -> forall l, In l xs -> atom l) ->
+  master_leaves ranges = Some ms -> mmr_root ms = Some (map_root p) ->
+  map_verify p = true -> map_contains p x = true -> atom x ->
+  (exists k xs, In (k, xs) ranges /\ x = BLit k) \/ (exists k xs, In (k, xs) ranges /\ In x xs).
+Proof.
+  intros Hat Hms Hr Hv Hc Hx.
+  assert (Hs : sub x (map_root p)) by (apply map_sound; assumption).
+  assert (Ho : over (fun l => In l ms) (map_root p)) by (apply (mmr_root_over _ ms); [intros l H; exact H | exact Hr]).
+  destruct (sub_over_find _ _ Ho x Hx Hs) as [m [Hm Hsm]].
+  destruct (master_leaves_In _ _ _ Hms Hm) as [k [xs [rt [Hin [Hrt ->]]]]].
+  inversion Hsm; subst.
+  - unfold atom in Hx. rewrite is_mrg_Mrg in Hx. discriminate.
+  - left. exists k, xs. split; [exact Hin | apply sub_BLit; assumption].
+  - right. exists k, xs. split; [exact Hin|]. eapply sub_atom_root; eauto.
+Qed.
